@@ -5,7 +5,8 @@
    file sources of request.go: SetFileBytes (fresh reader per call), SetFile (handle opened when
    set, a freshly opened file on every later call - 009781e), SetFileReader (the caller's reader; when asked again it
    is rewound if it is an io.Seeker, otherwise - or when Seek fails, e.g. on a closed os.File -
-   GetFileContent returns an error; repaired tree, the pinned variant is [file_read_pinned]).
+   GetFileContent returns an error; repaired tree, the pinned variant is [file_read_pinned]),
+   SetFileUpload with the caller's own GetFileContent.
    writeMultipartFormFile: content := GetFileContent(); defer content.Close(); reads 512 bytes
    into a zeroed buffer, detects the content type on the WHOLE buffer, writes the part; any error
    fails the request (writeMultiPart returns it, the request middleware returns it, Request.do
@@ -20,7 +21,10 @@ Inductive fkind :=
 | FSeekNoClose    (* SetFileReader with an io.ReadSeeker + io.Closer whose Close is a no-op *)
 | FSeekReader     (* SetFileReader with a strings.Reader / bytes.Reader: io.Seeker, no Close *)
 | FPlainReader    (* SetFileReader with a bytes.Buffer / any reader that cannot be rewound *)
-| FOsFile.        (* SetFileReader with an os.File: closed after the first attempt *)
+| FOsFile         (* SetFileReader with an os.File: closed after the first attempt *)
+| FCustomSeek     (* SetFileUpload, the caller's GetFileContent returns the SAME io.ReadSeeker
+                     (Close a no-op) on every call *)
+| FCustomPlain.   (* SetFileUpload, the caller's GetFileContent returns the SAME plain reader *)
 
 Record mfile := mkFile {
   mf_param : bytes; mf_name : bytes; mf_kind : fkind; mf_content : bytes;
@@ -31,7 +35,9 @@ Definition mark_used (f : mfile) : mfile :=
   mkFile (mf_param f) (mf_name f) (mf_kind f) (mf_content f) true.
 
 (* the bytes one pass obtains from the source on attempt number [att] (= r.RetryAttempt);
-   None = GetFileContent / Seek / Read failed: the request fails *)
+   None = GetFileContent / Seek / Read failed: the request fails.  A caller-supplied
+   GetFileContent that shares one reader is rewound by writeMultipartFormFile only
+   (RetryAttempt > 0 and the content is an io.ReadSeeker). *)
 Definition file_read (att : Z) (f : mfile) : option bytes :=
   match mf_kind f with
   | FBytes => Some (mf_content f)
@@ -40,7 +46,13 @@ Definition file_read (att : Z) (f : mfile) : option bytes :=
   | FSeekReader => Some (mf_content f)
   | FPlainReader => if mf_used f then None else Some (mf_content f)
   | FOsFile => if mf_used f then None else Some (mf_content f)
+  | FCustomSeek => if mf_used f && (att <=? 0)%Z then Some [] else Some (mf_content f)
+  | FCustomPlain => if mf_used f then Some [] else Some (mf_content f)
   end.
+
+(* SetFileReader marks such an upload (ff08702): Request.Do refuses a retryable request with it *)
+Definition upload_once_only (f : mfile) : bool :=
+  match mf_kind f with FPlainReader | FOsFile => true | _ => false end.
 
 (* SetFileReader as pinned: the reader is handed out again as it is (wrapped in io.NopCloser,
    which hides Seek, unless it is an io.ReadCloser): a drained reader yields nothing *)
@@ -65,41 +77,47 @@ Variable detect : bytes -> bytes.
 Definition mk_part (f : mfile) (b : bytes) : part :=
   PFile (mf_param f) (mf_name f) (detect (pad512 b)) b.
 
-(* the file parts of one pass; None = a source failed *)
-Fixpoint file_parts (att : Z) (fs : list mfile) : option (list part) :=
+(* the file parts one pass writes, and whether every source delivered (the first failing
+   source ends the writing) *)
+Fixpoint file_parts (att : Z) (fs : list mfile) : list part * bool :=
   match fs with
-  | [] => Some []
+  | [] => ([], true)
   | f :: r =>
       match rd att f with
-      | None => None
-      | Some b => match file_parts att r with
-                  | None => None
-                  | Some ps => Some (mk_part f b :: ps)
-                  end
+      | None => ([], false)
+      | Some b => (mk_part f b :: fst (file_parts att r), snd (file_parts att r))
       end
   end.
 
 Definition field_parts (form : amap) : list part :=
   flat_map (fun k => map (PField k) (hget k form)) (sort_keys (map fst form)).
 
-(* one pass of handleMultiPart: the parts written (None: error), the sources afterwards *)
-Definition mp_pass (att : Z) (form : amap) (fs : list mfile) : option (list part) * list mfile :=
-  (match file_parts att fs with Some ps => Some (field_parts form ++ ps) | None => None end,
-   map mark_used fs).
+(* one pass of handleMultiPart: (the parts written, complete?), the sources afterwards *)
+Definition mp_pass (att : Z) (form : amap) (fs : list mfile) : (list part * bool) * list mfile :=
+  ((field_parts form ++ fst (file_parts att fs), snd (file_parts att fs)), map mark_used fs).
 
-(* up to [n] attempts numbered att, att+1, ...: the bodies sent, and whether the sequence was
-   ended by an upload error *)
-Fixpoint mp_attempts (n : nat) (att : Z) (form : amap) (fs : list mfile) : list (list part) * bool :=
+(* up to [n] attempts numbered att, att+1, ...: the bodies put on the wire (with: complete?), and
+   whether the sequence was ended by an upload error.  Buffered variant: the body is built
+   before the attempt, an error means no attempt.  Forced chunked encoding: the body is written
+   into a pipe while the attempt runs, an error truncates that attempt's body. *)
+Fixpoint mp_attempts (chunked : bool) (n : nat) (att : Z) (form : amap) (fs : list mfile)
+  : list (list part * bool) * bool :=
   match n with
   | O => ([], false)
   | S n' =>
-      match fst (mp_pass att form fs) with
-      | None => ([], true)
-      | Some ps =>
-          let r := mp_attempts n' (att + 1) form (snd (mp_pass att form fs)) in
-          (ps :: fst r, snd r)
-      end
+      let a := fst (mp_pass att form fs) in
+      if snd a || chunked then
+        let r := mp_attempts chunked n' (att + 1) form (snd (mp_pass att form fs)) in
+        (a :: fst r, snd r)
+      else ([], true)
   end.
+
+(* Request.Do: refused up front (third component) when retries are enabled and an upload can be
+   sent only once *)
+Definition mp_run (retryable chunked : bool) (n : nat) (form : amap) (fs : list mfile)
+  : list (list part * bool) * bool * bool :=
+  if retryable && existsb upload_once_only fs then ([], false, true)
+  else (mp_attempts chunked n 0 form fs, false).
 
 (* every field, every file complete *)
 Definition full_parts (form : amap) (fs : list mfile) : list part :=
